@@ -270,6 +270,9 @@ def _default_tree(key_path: Key, value: Any):
   match key_path:
     case ():
       return value
+    case (Reserved() as key, *_) if _is_key(key, _SELF):
+      # SELF is the node itself, not a key of it.
+      return value
     case (Index(key), *rest_keys):
       if key == 0:
         return [_default_tree(Key(rest_keys), value)]
